@@ -52,6 +52,11 @@ func At(ll orb.Point, z Zoom) Tile {
 		Z: z,
 	}
 
+	// a longitude of exactly 180 maps to the fraction 2^z, one past the last column
+	if maxIndex := uint32(1) << uint32(z); maxIndex != 0 && t.X >= maxIndex {
+		t.X = maxIndex - 1
+	}
+
 	return t
 }
 
